@@ -45,8 +45,8 @@ fn decide(rng: &Mutex<Rng>, batch: &[i64], fault_pct: u64) -> (String, Vec<i64>)
 fn to_result(o: &str, rem: Vec<i64>) -> Result<(), BatchError<Vec<i64>>> {
     match o {
         "ok" => Ok(()),
-        "fail" => Err(BatchError::no_retry(HErr)),
-        "retry" => Err(BatchError::retry(HErr, rem)),
+        "fail" => Err(vh_batcher::build_error(None)),
+        "retry" => Err(vh_batcher::build_error(Some(rem))),
         _ => unreachable!(),
     }
 }
@@ -55,14 +55,19 @@ fn round(seed_rng: &mut Rng, round_no: u64) -> Value {
     let rec = Recorder::new();
     emit_batcher::verif::install(Some(Arc::new(RecHooks(rec.clone()))));
     emit_batcher::verif::set_delay_scale(2_000); // 1 ms of back-off = 2 us
-    let cap = 1 + seed_rng.below(4) as usize;
+    // every 50th round is a "big" one: a large capacity, a slow processor and two senders pushing
+    // hundreds of items, so that batches of several hundred items are handed over while sends race
+    // with the hand-over (whatever the receiver does only for large batches is reached)
+    let big = round_no % 50 == 7;
+    let cap = if big { 4096 } else { 1 + seed_rng.below(4) as usize };
     let use_tokio = seed_rng.below(2) == 0;
-    let fault_pct = [0u64, 20, 50][seed_rng.below(3) as usize];
-    let nsenders = 2 + seed_rng.below(2);
+    let fault_pct = if big { 0 } else { [0u64, 20, 50][seed_rng.below(3) as usize] };
+    let nsenders = if big { 2 } else { 2 + seed_rng.below(2) };
     let (sender, receiver) = emit_batcher::bounded::<Vec<i64>>(cap);
     let sender = Arc::new(sender);
     let prng = Arc::new(Mutex::new(Rng(seed_rng.next())));
-    let slow = seed_rng.below(3) == 0;
+    let slow = big || seed_rng.below(3) == 0;
+    let slow_us: u64 = if big { 3000 } else { 200 };
 
     let handle = if use_tokio {
         let (rec, prng) = (rec.clone(), prng.clone());
@@ -76,7 +81,7 @@ fn round(seed_rng: &mut Rng, round_no: u64) -> Value {
             }
             async move {
                 if slow {
-                    tokio::time::sleep(Duration::from_micros(200)).await;
+                    tokio::time::sleep(Duration::from_micros(slow_us)).await;
                 } else {
                     tokio::task::yield_now().await;
                 }
@@ -97,7 +102,7 @@ fn round(seed_rng: &mut Rng, round_no: u64) -> Value {
                 o = "panic".into();
             }
             if slow {
-                std::thread::sleep(Duration::from_micros(200));
+                std::thread::sleep(Duration::from_micros(slow_us));
             }
             rec.log(json!({"ev": "Ret", "outcome": o, "rem": rem}));
             if o == "panic" {
@@ -111,22 +116,25 @@ fn round(seed_rng: &mut Rng, round_no: u64) -> Value {
     let mut threads = Vec::new();
     let mut desc = Vec::new();
     for s in 0..nsenders {
-        let nops = 3 + seed_rng.below(5);
+        let nops = if big { 900 } else { 3 + seed_rng.below(5) };
         let mut ops = Vec::new();
         for _ in 0..nops {
-            ops.push(seed_rng.below(8));
+            ops.push(if big { 0 } else { seed_rng.below(8) });
         }
-        desc.push(json!({"thread": s, "ops": ops}));
+        desc.push(if big { json!({"thread": s, "sends": nops}) } else { json!({"thread": s, "ops": ops}) });
         let (sender, rec) = (sender.clone(), rec.clone());
         let mut trng = Rng(seed_rng.next());
         threads.push(std::thread::spawn(move || {
             for (k, op) in ops.iter().enumerate() {
-                let item = (s as i64 + 1) * 100 + k as i64;
+                let item = (s as i64 + 1) * if big { 1000 } else { 100 } + k as i64;
                 set_current_item(item);
                 if *op <= 5 {
                     rec.log(json!({"ev": "SendCall", "item": item, "kind": match op { 0 | 1 | 2 => "send", 3 => "try", _ => "block" }}));
                 }
-                for _ in 0..trng.below(3) {
+                if big && k % 50 == 49 {
+                    std::thread::sleep(Duration::from_micros(300));
+                }
+                for _ in 0..if big { 0 } else { trng.below(3) } {
                     std::thread::yield_now();
                 }
                 let res = |r: Result<(), BatchError<i64>>| match r {
@@ -234,7 +242,7 @@ fn round(seed_rng: &mut Rng, round_no: u64) -> Value {
     emit_batcher::verif::install(None);
     let trace = rec.finish(cap, !hang);
     json!({"trace": trace, "hang": hang, "what": what,
-           "case": {"round": round_no, "cap": cap, "tokio": use_tokio, "fault_pct": fault_pct, "slow": slow, "threads": desc}})
+           "case": {"round": round_no, "big": big, "cap": cap, "tokio": use_tokio, "fault_pct": fault_pct, "slow": slow, "threads": desc}})
 }
 
 /// blocking entry points from every calling context (C08): they must return, not panic or hang
